@@ -28,7 +28,7 @@ func init() {
 			if tier == "thorough" {
 				return 240
 			}
-			return 28
+			return 42
 		},
 		Run:         runC14,
 		CaseTimeout: 6 * time.Minute,
@@ -156,7 +156,7 @@ func runC14(c *core.Ctx, res *core.Result) {
 	r := c.Rand
 	workload := []string{"singles", "many", "transactions", "big_transaction", "rotation", "large_values", "mixed"}[c.Idx%7]
 	join := []string{"before", "during", "after"}[(c.Idx/7)%3]
-	event := []string{"none", "restart", "linkcut", "none"}[(c.Idx/21+c.Idx)%4]
+	event := []string{"none", "restart", "linkcut", "restart"}[(c.Idx/21+c.Idx/7+c.Idx)%4]
 	nrep := 1 + (c.Idx/3)%2
 	cfg := kv.Cfg{MemTableSize: 32 << 20, MaxMemTables: 4, SyncMode: []int{0, 2}[r.Intn(2)], CompactSecs: 3600}
 	feat := map[string]string{"workload": workload, "join": join, "event": event, "primary_rotated": "false"}
@@ -196,7 +196,15 @@ func runC14(c *core.Ctx, res *core.Result) {
 	// workload on the primary
 	e := pn.eng
 	nkeys := r.Range(5, 30)
-	key := func() []byte { return []byte(fmt.Sprintf("k%03d", r.Intn(nkeys))) }
+	nuniq := 0
+	key := func() []byte {
+		if r.Chance(30) {
+			// a key that is written once and never again: a skipped entry stays visible as a difference
+			nuniq++
+			return []byte(fmt.Sprintf("u%05d", nuniq))
+		}
+		return []byte(fmt.Sprintf("k%03d", r.Intn(nkeys)))
+	}
 	uniq := 0
 	val := func(n int) []byte {
 		uniq++
@@ -257,13 +265,19 @@ func runC14(c *core.Ctx, res *core.Result) {
 			entries++
 		}
 		if event == "linkcut" && i == total/3 {
+			if len(reps) > 0 {
+				waitConverged(pn.eng, reps[0].eng, 20*time.Second)
+			}
 			proxy.Cut()
 		}
 		if event == "linkcut" && i == 2*total/3 {
 			proxy.Restore()
 		}
 		if event == "restart" && i == total/2 && len(reps) > 0 {
-			// clean restart of the first replica on the same directory
+			// clean restart of the first replica on the same directory, after it has
+			// really replicated what was written so far (the workload itself takes milliseconds)
+			waitConverged(pn.eng, reps[0].eng, 20*time.Second)
+			res.Count("restarts_after_catch_up", 1)
 			rn := reps[0]
 			rn.stop()
 			n2, err := startReplicaNode(rn.dir, cfg, proxy.Addr())
